@@ -1551,7 +1551,10 @@ def inline_new_helpers(tree, modname):
         self_name = None
         if owner is not None and fn.args.args and not any(ast.unparse(d) == "staticmethod" for d in fn.decorator_list):
             self_name = fn.args.args[0].arg
+        before = len(applied.get(q, []))
         splice(q, fn, owner[0] if owner else None, self_name)
+        if len(applied.get(q, [])) > before:
+            _ConstFold().visit(fn)  # literal arguments bound to the helper's flags: `if True:` / `if False:` fold away
     if applied:
         ast.fix_missing_locations(tree)
     return applied
